@@ -4,7 +4,7 @@
    code: the decoded value (rendered by the same printer as the input), an encoder error,
    a decoder error or a panic.  Error messages are not compared (class only). *)
 From Coq Require Import String.
-From Eino Require Import Base.Util Base.Universe Model.Ser Model.SerCheckpoint Model.SerStore.
+From Eino Require Import Base.Util Base.Universe Model.Ser Model.SerCheckpoint Model.SerStore Model.SerCanon.
 
 Inductive obs : Type := OOk (v : val) | OEncErr | ODecErr | OPanic.
 
@@ -43,29 +43,9 @@ Definition run_store (regx : registry) (env : senv) (v : val) : obs :=
 Definition run_case (regx : registry) (env : senv) (v : val) : obs :=
   if ty_eqb (ty_of v) t_checkpoint_ptr then run_store regx env v else run_with fixed regx env v.
 
-(* The property identifies nil and empty containers; so does the comparison: both sides are
-   brought to the form in which an empty slice / map is the nil one (types, nil pointers, nil
-   interfaces, lengths and every element stay as they are), then compared exactly. *)
-Fixpoint canon (v : val) : val :=
-  match v with
-  | VBase _ _ | VNamed _ _ _ | VNilPtr _ => v
-  | VStruct n fs => VStruct n (map (fun fv => (fst fv, canon (snd fv))) fs)
-  | VPtr w => VPtr (canon w)
-  | VSlice t None => v
-  | VSlice t (Some []) => VSlice t None
-  | VSlice t (Some es) => VSlice t (Some (map canon es))
-  | VMap k t None => v
-  | VMap k t (Some []) => VMap k t None
-  | VMap k t (Some kvs) => VMap k t (Some (map (fun kv => (canon (fst kv), canon (snd kv))) kvs))
-  | VIface it None => v
-  | VIface it (Some w) => VIface it (Some (canon w))
-  | VArray t es => VArray t (map canon es)
-  | VDef d w => VDef d (canon w)
-  end.
-
 Definition obs_eqb (a b : obs) : bool :=
   match a, b with
-  | OOk v, OOk w => val_eqb (canon v) (canon w)
+  | OOk v, OOk w => val_equivb v w     (* Model/SerCanon.v: equal up to nil ~ empty container *)
   | OEncErr, OEncErr => true
   | ODecErr, ODecErr => true
   | OPanic, OPanic => true
